@@ -45,10 +45,10 @@ func VerifSanitizeStyles(p *Policy, element, value string) string {
 }
 
 func VerifAllowNoAttrs(p *Policy, element string) bool { return p.allowNoAttrs(element) }
-func VerifRemoveUnicode(s string) string                { return removeUnicode(s) }
-func VerifIsDataAttribute(s string) bool                { return isDataAttribute(s) }
-func VerifNormaliseElementName(s string) string         { return normaliseElementName(s) }
-func VerifLinkable(s string) bool                       { return linkable(s) }
+func VerifRemoveUnicode(s string) string               { return removeUnicode(s) }
+func VerifIsDataAttribute(s string) bool               { return isDataAttribute(s) }
+func VerifNormaliseElementName(s string) string        { return normaliseElementName(s) }
+func VerifLinkable(s string) bool                      { return linkable(s) }
 
 func verifFuncName(f interface{}) string {
 	v := reflect.ValueOf(f)
